@@ -127,7 +127,7 @@ func historyAlphabet(sig string, thorough bool) []Letter {
 		add(Letter{Sig: sig, Ramp: &Ramp{Kind: "names", N: 130, Uses: 1, Base: 0}})
 		add(one(sig, 1, 1, 40, 41, 40))
 		add(one(sig, 1, 1, 42, 43, 44))
-		add(one(sig, 1, 1, 47, 48, 49)) // exp-histogram twin of 41, NaN and signed-zero exemplars
+		add(one(sig, 1, 1, 47, 48, 49, 50)) // exp-histogram twin of 41, NaN and signed-zero exemplars, unordered quantiles
 		add(one(sig, 9, 8, 45))
 		if thorough {
 			add(Letter{Sig: sig, Ramp: &Ramp{Kind: "attrs", N: 130, Uses: 1, Base: 2000}})
@@ -521,6 +521,10 @@ func nopanicPlan(tier string) []Unit {
 		if !thorough {
 			units = append(units, Unit{Opts: def, Mon: mon, Tag: "idwidth", History: []Letter{{Sig: sig, Big: &Big{Kind: "resources", N: 65537}}, after, after}})
 		}
+		// a refused batch in the middle of a healthy stream
+		for _, k := range []string{"items", "resources", "scopes"} {
+			units = append(units, Unit{Opts: def, Mon: mon, Tag: "idwidth-mid", History: []Letter{after, one(sig, 1, 1, 1, 0), {Sig: sig, Big: &Big{Kind: k, N: 65537}}, after, after}})
+		}
 	}
 	return units
 }
@@ -641,7 +645,7 @@ func dictPlan(tier string) []Unit {
 func allocPlan(tier string) []Unit {
 	thorough := tier == "thorough"
 	var units []Unit
-	mon := Monitors{Alloc: true, Immutable: true, Resend: true}
+	mon := Monitors{Alloc: true, Immutable: true, Resend: true, ReadOnly: true}
 	for _, sig := range sigs() {
 		alpha := historyAlphabet(sig, false)
 		for _, h := range histories(alpha, 2) {
